@@ -25,7 +25,7 @@ ASSUMPTIONS = ["a re-registration on the same token starts a new registration (i
                "retransmitted copies of an earlier notification (same message ID) are not 'new' notifications",
                "'a notification rendered at or after the last change is eventually sent' is judged at quiescence for "
                "registrations still alive, on what the server transmitted (not on what the lossy network delivered)"]
-EXPECTED_PROBES = ["coalesced_burst", "change_while_in_flight", "end_by_rst", "end_by_new_request", "end_by_deregister",
+EXPECTED_PROBES = ["change_during_render", "coalesced_burst", "change_while_in_flight", "end_by_rst", "end_by_new_request", "end_by_deregister",
                    "end_by_timeout", "end_by_icmp", "end_by_error_notification", "end_by_last_notification", "end_by_shutdown",
                    "non_registration", "several_observers", "rst_on_non_notification"]
 
@@ -50,7 +50,9 @@ def gen(r, tier):
     if r.chance(0.1):
         ops.append({"op": "shutdown", "t": round(r.uniform(1.5, t + 1), 4)})
     ops.sort(key=lambda o: o["t"])
-    return {"observers": observers, "ops": ops, "net": faults.swarm(r, kinds=("drop", "dup", "delay"), fault_free=0.35)}
+    # rendering may take time (the resource reads its state, then awaits something): changes can land DURING a render
+    return {"observers": observers, "ops": ops, "net": faults.swarm(r, kinds=("drop", "dup", "delay"), fault_free=0.35),
+            "render_delay": r.choice([0, 0, 0.0005, 0.005, 0.05])}
 
 
 def systematic(tier):
@@ -64,7 +66,7 @@ def systematic(tier):
                     ops = [{"op": "change", "t": round(2.0 + i * gap, 4), "n": 1 + (i % 2)} for i in range(5)]
                     out.append({"observers": [{"id": 0, "con": con, "t": 0.1, "reactions": reactions},
                                               {"id": 1, "con": True, "t": 0.2, "reactions": ["ack"] * 12}],
-                                "ops": ops, "net": {}})
+                                "ops": ops, "net": {}, "render_delay": 0.0005 if (pos + int(gap * 10)) % 2 else 0})
     for kind in ("error_notify", "last_notify", "icmp", "shutdown"):
         for tt in (2.0005, 2.5, 9.0):
             ops = [{"op": "change", "t": 2.0, "n": 2}, {"op": "change", "t": 4.0, "n": 1}, {"op": "change", "t": 12.0, "n": 1}]
@@ -218,11 +220,16 @@ def execute(sim, scn):
             renders.append({"pos": len(sim.events), "t": loop.now, "remote": tuple(request.remote.sockaddr[:2]),
                             "token": bytes(request.token), "state": self.state})
             sim.log("app", "render", len(renders) - 1, self.state)
-            return Message(payload=b"s=%d;r=%d" % (self.state, len(renders) - 1))
+            state, serial = self.state, len(renders) - 1
+            if scn.get("render_delay"):
+                await asyncio.sleep(scn["render_delay"])  # the state was read before: a change may land meanwhile
+            return Message(payload=b"s=%d;r=%d" % (state, serial))
 
         def change(self):
             self.state += 1
             self.changes.append(loop.now)
+            if renders and scn.get("render_delay") and loop.now - renders[-1]["t"] < scn["render_delay"]:
+                sim.probe("change_during_render")
             self.updated_state()
 
     counter = Counter()
